@@ -11,6 +11,7 @@ import (
 	"errors"
 	"fmt"
 	"io"
+	"slices"
 
 	"github.com/andybalholm/brotli"
 	"github.com/klauspost/compress/zstd"
@@ -489,6 +490,14 @@ func (c *UConn) clientHandshake(ctx context.Context) (err error) {
 	}
 
 	c.serverName = hello.serverName
+	if c.clientHelloBuildStatus == BuildByUtls && !slices.ContainsFunc(c.Extensions, func(e TLSExtension) bool {
+		_, ok := e.(*SNIExtension)
+		return ok
+	}) {
+		// No server_name extension is sent (RemoveSNIExtension, or a spec without
+		// one): do not report a name the peer never saw.
+		c.serverName = ""
+	}
 
 	if _, err := c.writeHandshakeRecord(hello, nil); err != nil {
 		return err
